@@ -7,7 +7,7 @@ LINK = ["as_endian.c", "bpemu.c"]
 GROUPS.append(G("tu_FilterOK", TU, "h_FilterOK", enforce=["FilterOK"], link=LINK, loops=True, unwind=102, timeout=300))
 GROUPS.append(G("tu_FilterOK_reject", TU, "h_FilterOK_reject", enforce=[], link=LINK, unwind=102, timeout=300, functions=["FilterOK"],
                 bounded="the filter list has at most 100 entries by construction (array size); the reject direction unwinds them all"))
-GROUPS.append(G("tu_SkipRecord", TU, "h_SkipRecord", enforce=["SkipRecord"], link=LINK, unwind=12, timeout=300, flags=["--signed-overflow-check", "--conversion-check"]))
+GROUPS.append(G("tu_SkipRecord", TU, "h_SkipRecord", enforce=["SkipRecord"], link=LINK, unwind=12, timeout=300, flags=["--signed-overflow-check"]))
 GROUPS.append(G("tu_ReadRecordHeader", TU, "h_ReadRecordHeader", enforce=[], link=LINK, unwind=12, timeout=300, functions=["ReadRecordHeader", "Granularity"]))
 GROUPS.append(G("tu_WriteRecordHeader", TU, "h_WriteRecordHeader", enforce=[], link=LINK, unwind=12, timeout=300, functions=["WriteRecordHeader", "Granularity"]))
 PB = "harness/C07/h_pbind.c"
